@@ -297,6 +297,39 @@ def check_sutton(ctx, rule):
                     k = nf.as_int(nf.unkey(a[2][1])) if len(a[2]) == 2 else None
                     if k not in (1, 2):
                         bad.append(nf.show(nf.atom_poly(a), 80))
+        # nothing divides by a quantity that vanishes when there are no contaminants (a weighted average over the
+        # contaminant fractions, a normalisation by their sum): 0 * (x / 0) is not 0 in floating point - it raises or is NaN
+        vanishing = []
+        for e in p.events:
+            if e.kind == "ext_call" and e.data["callee"] in ("numpy.average", "numpy.ma.average") and e.data["args"].get("weights") is not None:
+                w = it.to_nf(e.data["args"]["weights"])
+                try:
+                    if not nf.subst(w, zero):
+                        vanishing.append(f"np.average(weights={nf.show(w, 60)}) at line {e.line}")
+                except nf.NFError:
+                    pass
+            if e.kind == "weighted_average":
+                try:
+                    if not nf.subst(it.to_nf(e.data["weights_sum"]), zero):
+                        vanishing.append(f"np.average: weights sum {nf.show(it.to_nf(e.data['weights_sum']), 60)} at line {e.line}")
+                except nf.NFError:
+                    pass
+        for val in (it.to_nf(v.items[0]), it.to_nf(v.items[1])):
+            for m_ in val:
+                for atom, ex in m_:
+                    exn = nf.unkey(ex)
+                    if nf.is_const(exn) and nf.cval(exn) < 0:
+                        try:
+                            base0 = nf.subst(nf.atom_poly(atom), zero)
+                        except nf.NFError:
+                            continue
+                        if not base0:
+                            vanishing.append("division by " + nf.show(nf.atom_poly(atom), 60))
+        ctx.check(
+            not vanishing, rule, SQ + f":no division by the contaminant total [{tag}]", f.where(),
+            "no denominator vanishes when all contaminant fractions are zero (the contaminant-free point must evaluate, and equal the hydrocarbon correlation)",
+            signature="vanishing denominator " + "; ".join(sorted(set(vanishing)))[:120], denominators=sorted(set(vanishing)),
+        )
         ctx.check(
             not bad, rule, SQ + f":contaminant rows [{tag}]", f.where(),
             "individual fractions are read only at the fixed rows 1 (H2S) and 2 (CO2); any further component enters through sums over all rows, so a zero-fraction extra row changes nothing",
